@@ -121,6 +121,40 @@ theorem c15_judge_none_iff (s : DiGraph) (h : Spec.DiGraph.WF s) (a b : Nat) :
     simp only [Bool.not_false, Bool.true_or, true_iff]
     exact Or.inl hl
 
+/-- **ties do not matter.** Whatever the external search picks among equal-weight paths: two answers the oracle accepts for
+the same query are paths of one and the same total weight, so "minimum total weight" does not depend on the choice -/
+theorem c15_accepted_same_weight (s : DiGraph) (h : Spec.DiGraph.WF s) (a b : Nat) (p q : List Nat)
+    (hp : judge s a b (some p) = true) (hq : judge s a b (some q) = true) :
+    ∃ c, Path s a b p c ∧ Path s a b q c := by
+  obtain ⟨_, _, c, hpc, hpmin⟩ := (c15_judge_some_iff s h a b p).1 hp
+  obtain ⟨_, _, c', hqc, hqmin⟩ := (c15_judge_some_iff s h a b q).1 hq
+  have : c = c' := Nat.le_antisymm (hpmin q c' hqc) (hqmin p c hpc)
+  subst this
+  exact ⟨c, hpc, hqc⟩
+
+/-- … and the oracle never accepts both a path and "no path" for one query: which of the two `shortest_path` must answer is
+determined by the graph alone -/
+theorem c15_some_none_exclusive (s : DiGraph) (h : Spec.DiGraph.WF s) (a b : Nat) (p : List Nat)
+    (hp : judge s a b (some p) = true) : judge s a b none = false := by
+  obtain ⟨ha, hb, c, hpc, _⟩ := (c15_judge_some_iff s h a b p).1 hp
+  cases hn : judge s a b none with
+  | false => rfl
+  | true =>
+    rcases (c15_judge_none_iff s h a b).1 hn with hl | hno
+    · exact absurd ⟨ha, hb⟩ hl
+    · exact absurd hpc (hno p c)
+
+/-- the same on every graph the API can reach: two accepted answers of `shortest_path` (two different `astar` choices) for one
+query have equal total weight -/
+theorem c15_reachable_ties_same_weight (ops : List Op) (a b : Nat) (p q : List Nat) :
+    let g := (run .repaired init ops).1
+    judge (abs g) a b (some p) = true → judge (abs g) a b (some q) = true →
+      ∃ c, Path (abs g) a b p c ∧ Path (abs g) a b q c := by
+  intro g hp hq
+  have hwf : Model.UGraph.WF g := C08.c08_reachable_wf ops
+  have hs : Spec.DiGraph.WF (abs g) := ⟨hwf.keysNodup, hwf.edgesLive, hwf.edgesOk.nodup⟩
+  exact c15_accepted_same_weight (abs g) hs a b p q hp hq
+
 /-- the guards of `shortest_path`: an absent end point yields `none` whatever `astar` would say -/
 theorem c15_guards (g : UGraph) (astar : Option (List Nat)) (a b : Nat)
     (h : g.containsNode a = false ∨ g.containsNode b = false) : g.shortestPath astar a b = none := by
